@@ -371,4 +371,29 @@ PROPS = {
         "level_note": "Trusted: the tokenizer's reading of the help layout (4-space term lines, "
                       "two-space gap before help text).",
     },
+    "C16": {
+        "cases": {"quick": 800, "thorough": 40000},
+        "rule": "Per case one random definition (nested commands to depth 3, groups, all "
+                "wrappers, hidden parts) whose help/description/header/footer/group/metavariable "
+                "strings carry unique markers and roff/HTML/markdown metacharacters at the start, "
+                "after soft newlines, after hard line breaks and in later paragraphs; "
+                "render_markdown, render_html and render_manpage are run and scanned: HTML "
+                "tag-stack lexer (only bpaf's tags, balanced, no bare `>`), roff control-line "
+                "classifier and escape scanner (only bpaf's requests/escapes), one section per "
+                "visible level mentioning every visible item, no hidden item mentioned. "
+                "evaluations = documents rendered; distinct_nontrivial = distinct (definition, "
+                "format) pairs.",
+        "assumptions": COMMON_ASSUMPTIONS + [
+            "groff/man/zsh are not installed: the manpage is judged lexically against the set of "
+            "requests and escapes bpaf's renderer emits.",
+        ],
+        "must_observe": ["rendered:markdown", "rendered:html", "rendered:manpage",
+                         "html_tags_checked", "roff_control_lines_checked",
+                         "roff_escapes_checked", "mentions-checked", "hidden-checked"],
+        "technique": "runtime monitoring: output-protocol monitors (HTML tag-stack lexer, roff "
+                     "line/escape lexer, section/mention scanner) over documents rendered from "
+                     "generated definitions with hostile text",
+        "level_text": "Held on the documents observed, except for listed known findings.",
+        "level_note": "Trusted: the lexers' tables of bpaf's own tags, requests and escapes.",
+    },
 }
